@@ -2,7 +2,7 @@
    correspondence check.  Everything here is executed with vm_compute. *)
 From Coq Require Import ZArith List String Bool PrimFloat.
 From Hexital Require Import Base.Prelude Base.Num Base.PyFloat Model.Manager Model.Candle Model.Readings
-  Model.Analysis Model.Engine Inst.FloatInst Spec.Steppers.
+  Model.Analysis Model.Engine Model.Hexital Inst.FloatInst Spec.Steppers.
 Import ListNotations.
 Local Open Scope Z_scope.
 
@@ -159,6 +159,49 @@ Definition check_ind (c : ind_case) : bool :=
   end.
 
 
+(* ---------------- Hexital: several members on several managers ---------------- *)
+Fixpoint hx_trace (hcfg : mcfg) (h : hexital F) (ops : list (hop F)) : list (hexital F) * option exn :=
+  match ops with
+  | [] => ([h], None)
+  | op :: ops' =>
+    match hx_step F hcfg h op with
+    | Ok h' => let '(tr, e) := hx_trace hcfg h' ops' in (h :: tr, e)
+    | Err e => ([h], Some e)
+    end
+  end.
+
+(* observed candle of a manager: timestamp, values, both reading dictionaries *)
+Definition exp_hc : Type := Z * ohlcv F * list (string * val F) * list (string * val F).
+Definition hc_matches (c : cd (payload F)) (e : exp_hc) : bool :=
+  let '(ts, x, i, s) := e in
+  (t c =? ts) && ohlcv_eqb (cur F (p c)) x && alist_eqb (inds F (p c)) i && alist_eqb (subs F (p c)) s.
+(* observed Hexital: its managers in creation order *)
+Definition hx_matches (h : hexital F) (e : option (list (string * list exp_hc))) : bool :=
+  match e with
+  | None => true
+  | Some l => list_eqb (fun (kv : string * (mcfg * store F)) (ke : string * list exp_hc) =>
+                          String.eqb (fst kv) (fst ke) && list_eqb hc_matches (snd (snd kv)) (snd ke))
+                       (h_mgrs F h) l
+  end.
+
+Definition hx_member : Type := kind F * string * Z * option (string * Z).
+Definition hx_ind (m : hx_member) : ind F * option (string * Z) :=
+  let '(k, name, rnd, own) := m in (top F k name rnd, own).
+Definition hx_case : Type :=
+  mcfg * list (cd (payload F)) * list hx_member * list (hop F) *
+  list (option (list (string * list exp_hc))) * option Z.
+
+Definition check_hx (c : hx_case) : bool :=
+  let '(hcfg, init, members, ops, exp_states, exp_err) := c in
+  match hx_new F hcfg init (map hx_ind members) with
+  | Err e => match exp_states, exp_err with [], Some code => exn_code e =? code | _, _ => false end
+  | Ok h0 =>
+    let '(tr, e) := hx_trace hcfg h0 ops in
+    list_eqb hx_matches tr exp_states && opt_eqb Z.eqb (option_map exn_code e) exp_err
+  end.
+Definition hadd (m : hx_member) : hop F := HAdd F (fst (hx_ind m)) (snd (hx_ind m)).
+
+
 (* ---------------- recurrence specifications ---------------- *)
 Definition spec_case : Type := kind_s F * Z * list (inp F) * (list (val F) + Z).
 Definition check_spec (c : spec_case) : bool :=
@@ -184,3 +227,4 @@ Arguments IPurge {tbl}.
 Arguments IRecalculate {tbl}.
 Arguments ICalcIndex {tbl}.
 Arguments mkinp {tbl}.
+Arguments hadd {tbl}.
